@@ -1,14 +1,133 @@
 import Driver.Proto
-/-! Driver sub-command `grammar` (stub – filled in by its cluster). -/
+import PtVerif.Model.Print
+import PtVerif.Model.GrammarTable
+/-! Driver sub-command `grammar`: the formula grammar (C01) and the printer (C13).
+
+Texts cross the protocol as comma-separated code points (`-` = empty text).
+Requests:
+* `tblgen` / `tblnew` / `ent c1,c2 z alias isos ions` – select the generated table, or define one
+* `tbldump` – the current table
+* `parse <text>` → `OK <items> <dens>` | `FAIL` | `ABORT`
+* `print <qitems>` / `str <name> <qitems>` / `repr <name> <qitems>` → `S <text>`
+* `fmtg n d` / `strcount n d` → `S <text>`;  `round6 n d` → `C num dec`
+* `roundtrip <qitems>` → `OK <items> <dens>` of parsing the printed text, and `EXP <items>` =
+  `norm (roundItems …)` on a second token group
+-/
 namespace Driver.GrammarCmd
-open Driver
+open Driver PtModel PtModel.Grammar PtModel.Print
 
 structure St where
-  dummy : Unit := ()
+  table : Table := genTable
 
 def init : St := {}
 
+def encText (cs : List Char) : String :=
+  if cs.isEmpty then "-" else ",".intercalate (cs.map fun c => toString c.toNat)
+
+def decText (s : String) : Option (List Char) :=
+  if s = "-" then some [] else
+  (s.splitOn ",").foldr (fun t acc => do
+    let r ← acc
+    let n ← t.toNat?
+    pure (Char.ofNat n :: r)) (some [])
+
+def natList (s : String) : Option (List Nat) :=
+  if s = "-" then some [] else (s.splitOn ",").mapM String.toNat?
+def intList (s : String) : Option (List Int) :=
+  if s = "-" then some [] else (s.splitOn ",").mapM String.toInt?
+
+mutual
+partial def showFragC : Frag Cnt → String
+  | .atom x => s!"a {x.z} {x.a} {x.q}"
+  | .group is => "g " ++ showItemsC is
+partial def showItemsC (is : Items Cnt) : String :=
+  "[ " ++ String.join (is.toList.map fun (c, f) => s!"{c.num} {c.dec} " ++ showFragC f ++ " ") ++ "]"
+end
+
+def showDens : Option Dens → String
+  | none => "-"
+  | some (.iso c) => s!"i {c.num} {c.dec}"
+  | some (.nat c) => s!"n {c.num} {c.dec}"
+
+def readQ (s : String) : Option Q :=
+  match s.splitOn "/" with
+  | [n, d] => do let n ← n.toNat?; let d ← d.toNat?; some ⟨n, d⟩
+  | _ => none
+
+/-- qitems := "[" (n/d "a" z A q | n/d "g" qitems)* "]" -/
+partial def readQItems : Toks → Option (Items Q × Toks)
+  | "[" :: r => go r
+  | _ => none
+where
+  go : Toks → Option (Items Q × Toks)
+    | "]" :: r => some (.nil, r)
+    | c :: "a" :: z :: a :: q :: r => do
+        let c ← readQ c; let z ← natTok z; let a ← natTok a; let q ← intTok q
+        let (rest, r') ← go r
+        some (.cons c (.atom ⟨z, a, q⟩) rest, r')
+    | c :: "g" :: r => do
+        let c ← readQ c
+        let (inner, r1) ← readQItems r
+        let (rest, r2) ← go r1
+        some (.cons c (.group inner) rest, r2)
+    | _ => none
+
+def showParse : Except Err (Items Cnt × Option Dens) → String
+  | .ok (fs, d) => "OK " ++ showItemsC fs ++ " " ++ showDens d
+  | .error .fail => "FAIL"
+  | .error .abort => "ABORT"
+
+def bad (st : St) : IO St := do reply "ERR bad-op"; pure st
+
 def handle (st : St) : Toks → IO St
-  | _ => do reply "ERR bad-op"; pure st
+  | ["tblgen"] => do reply "ok"; pure { st with table := genTable }
+  | ["tblnew"] => do reply "ok"; pure { st with table := [] }
+  | ["ent", sym, z, al, isos, ions] =>
+    match decText sym, natTok z, natTok al, natList isos, intList ions with
+    | some sym, some z, some al, some isos, some ions => do
+      reply "ok"
+      pure { st with table := st.table ++ [{ sym := sym, z := z, alias := al, isos := isos, ions := ions }] }
+    | _, _, _, _, _ => bad st
+  | ["tbldump"] => do
+    reply (" ".intercalate (st.table.map fun e =>
+      s!"{encText e.sym}|{e.z}|{e.alias}|{",".intercalate (e.isos.map toString)}|{",".intercalate (e.ions.map toString)}"))
+    pure st
+  | ["parse", t] =>
+    match decText t with
+    | some cs => do reply (showParse (parse st.table cs)); pure st
+    | none => bad st
+  | "print" :: rest =>
+    match readQItems rest with
+    | some (s, []) => do reply ("S " ++ encText (strItems st.table s)); pure st
+    | _ => bad st
+  | "str" :: name :: rest =>
+    match decText name, readQItems rest with
+    | some nm, some (s, []) => do
+      reply ("S " ++ encText (strFormula st.table (if nm.isEmpty then none else some nm) s)); pure st
+    | _, _ => bad st
+  | "repr" :: name :: rest =>
+    match decText name, readQItems rest with
+    | some nm, some (s, []) => do
+      reply ("S " ++ encText (reprFormula st.table (if nm.isEmpty then none else some nm) s)); pure st
+    | _, _ => bad st
+  | ["fmtg", n, d] =>
+    match natTok n, natTok d with
+    | some n, some d => do reply ("S " ++ encText (fmtG6 ⟨n, d⟩)); pure st
+    | _, _ => bad st
+  | ["strcount", n, d] =>
+    match natTok n, natTok d with
+    | some n, some d => do reply ("S " ++ encText (strCount ⟨n, d⟩)); pure st
+    | _, _ => bad st
+  | ["round6", n, d] =>
+    match natTok n, natTok d with
+    | some n, some d => do let c := round6 ⟨n, d⟩; reply s!"C {c.num} {c.dec}"; pure st
+    | _, _ => bad st
+  | "roundtrip" :: rest =>
+    match readQItems rest with
+    | some (s, []) => do
+      reply (showParse (parse st.table (strItems st.table s)) ++ " EXP " ++ showItemsC (norm (roundItems s)))
+      pure st
+    | _ => bad st
+  | _ => bad st
 
 end Driver.GrammarCmd
